@@ -317,6 +317,29 @@ def structure_checks(verdict, spec, nss, tier, seed):
                     verdict.violation(f"CompositeOrder|inverse|{ns}/{dt}", f"inverse(y) is not the reversed composition for {scen['params']['config']}", scen)
                 if jbn.shape != jback.shape or not np.allclose(jbn, jback, rtol=0, atol=tolj):
                     verdict.violation(f"JacAccumulates|inverse|{ns}/{dt}", f"inverse log-Jacobian is not the sum of the stage terms for {scen['params']['config']}", scen)
+                # inverse on latent points that are NOT forward images: the periodic coordinates are moved
+                # by arbitrary amounts in latent space (what a flow or a proposal hands to inverse()); the
+                # result must be the reversed composition of the elementary classes and wrapped into [lo, hi)
+                pcols = [i for i in range(d) if c["kinds"][i] == "periodic"]
+                if pcols and not c["flowt"]:
+                    wide = np.asarray(smcdrv.to_np(y)).astype(fdt).copy()
+                    wide[:, pcols] = wide[:, pcols] + rng.normal(0.0, 6.0, size=(len(wide), len(pcols))).astype(fdt)
+                    try:
+                        xw, jw = T.inverse(xp.asarray(wide.copy()))
+                    except Exception as ex:
+                        verdict.violation(f"NeverRaises|composite-inverse-wide|{ns}/{dt}|{type(ex).__name__}", f"inverse raised {type(ex).__name__}: {str(ex)[:140]}", scen)
+                        continue
+                    backw = wide.copy()
+                    for (E, idx) in reversed(built):
+                        sub = xp.asarray(np.ascontiguousarray(backw[:, idx]))
+                        xs, js = E.inverse(sub)
+                        backw[:, idx] = np.asarray(smcdrv.to_np(xs), dtype=fdt)
+                    xwn = np.asarray(smcdrv.to_np(xw)).astype(np.float64)
+                    lo_p, hi_p = kinds_bounds["periodic"]
+                    if xwn.shape != backw.shape or not (np.all(xwn[:, pcols] >= lo_p) and np.all(xwn[:, pcols] < hi_p + 8 * eps * abs(hi_p))):
+                        verdict.violation(f"WrapRange|composite-inverse|{ns}/{dt}", f"inverse(y) leaves periodic coordinates outside [{lo_p}, {hi_p}): min {xwn[:, pcols].min()}, max {xwn[:, pcols].max()} for {scen['params']['config']}", scen)
+                    elif not np.array_equal(xwn, backw.astype(np.float64)):
+                        verdict.violation(f"CompositeOrder|inverse-wide|{ns}/{dt}", f"inverse(y) on arbitrary latent points is not the reversed composition for {scen['params']['config']}", scen)
                 # laws on the real composite
                 tolx = 4096 * eps * (1 + np.abs(data).max())
                 if not np.allclose(xbn.astype(np.float64), data.astype(np.float64), rtol=0, atol=tolx):
@@ -335,7 +358,7 @@ def main(prop, tier, seed, replay_path=None):
         spec, r, ncfg = tlacases.export_cases("MC_Pipeline", consts, name="pipeline", timeout=3000)
     finally:
         common.cleanup(wd)
-    nss = ["numpy", "torch", "jax"] if tier != "quick" else ["numpy", ["torch", "jax"][seed % 2]]
+    nss = ["numpy", "torch", "jax"]
     n_el, n_dist = elementary_checks(verdict, spec, nss, tier, seed)
     n_st = structure_checks(verdict, spec, nss, tier, seed)
     # the exact wrap table computed by TLC agrees with the rational oracle of the harness (binding of the two)
